@@ -24,11 +24,11 @@ CLAIMS = {
  "C03": ("state-machine extraction over atomic accesses + dominance-order obligations + critical-section typestate (closed queue stays closed) + who-may-write of the connection field",
          "Decides for every interleaving the structural causes of hangs, leaked workers, double close, use-after-clear and refused restarts: legal state transitions only, close protocol order, "
          "workers awaited before 'stopped', worker exits on observing the closed queue, started-checks dominate every publishing entry point, a closed work queue is never re-opened, the listener receives on the channel value this run created (not a re-read of the cleared field), the connection "
-         "field is not written while readers may run (one known finding). Bounded time itself is not decided.", "DESIGN.md section 4 C03"),
+         "field is not written while readers may run (one known finding), and every user callback is invoked on a worker goroutine (which Shutdown awaits) or synchronously inside one - never directly on the timer or a foreign goroutine. Bounded time itself is not decided.", "DESIGN.md section 4 C03"),
  "C04": ("flag-sensitive must-reply typestate over SSA CFGs + who-may-write/publish census",
          "Path-universal structural obligations: on every CFG path of request processing (handlers as havoc: reply 0/1 times, return or panic) "
          "library code replies exactly once; reply funnel guarded by the replied flag; recover closure replies iff not replied; every response "
-         "method that may reply must reply (private helpers analysed in place, also across a boolean helper result); requests are not parked on an orphaned work item after a restart. Level 'other': necessary (and jointly close to sufficient) conditions of the behavioural statement, "
+         "method that may reply must reply (private helpers analysed in place, also across a boolean helper result); requests are not parked on an orphaned work item after a restart; the service work queue is only tail-appended and head-dropped (no bounded copy that discards queued requests). Level 'other': necessary (and jointly close to sufficient) conditions of the behavioural statement, "
          "decided statically for all handler programs rather than sampled.", "DESIGN.md section 4 C04"),
  "C08": ("event classification (apply/publish/listener/panic) + path-universal typestate and dominance over every event method + no-go-on-publish-path census",
          "Decides for every handler/listener program the order apply -> publish -> listeners, at most one publish per call, that a failing apply, an apply reporting no change, an empty change "
@@ -37,21 +37,21 @@ CLAIMS = {
  "C05": ("table bijection (payload struct -> request field -> accessor), sibling agreement (dispatcher vs subscribe, call vs auth lookup), error-mapping value flow, literal vocabulary",
          "Decides the structure that carries the for-all-inputs statement: the payload is decoded by whole-input json.Unmarshal of the message data and a decode error never reaches a handler; each decoded payload member reaches exactly one accessor unconverted; routed data comes from the Match, whose params come from the atomically assembled match record; the dispatcher's "
          "request types equal the subscribed ones; call/auth use [method] then [*] then methodNotFound and new prefers New; method stripping and method wildcards cover the same types; recovered "
-         "*Error is passed verbatim and everything else becomes an internal error; not-found / method-not-found / missing-reply outcomes use literals with the right code. Subject split arithmetic "
+         "*Error is passed verbatim and everything else becomes an internal error; an error-reply funnel sends the marshalled *Error it was handed (a static literal only on the marshal-failure edge, never chosen by the error's code); not-found / method-not-found / missing-reply outcomes use literals with the right code. Subject split arithmetic "
          "and JSON decoding are not decided.", "DESIGN.md section 4 C05"),
  "C06": ("CFG-reachability order of candidate reads + units rule for mount-relative indexes (value-flow census) + panic-guard dominance at registration + match-record assembly census",
          "Decides structural necessary conditions of routing: literal before placeholder before wildcard with fall-through on a failed recursive match; mount-relative index fields are written as "
-         "tokenIndex-mountIndex and rebased at every read (one known finding: group tag indexes); registration validates before storing; a group ${tag} is located by whole-token equality in the split pattern; the lookup call tree writes no shared state (concurrent lookups cannot mix their tokens) and matches the mux path on a token boundary; the match record (node, mount index, params) is written "
+         "tokenIndex-mountIndex and rebased at every read (one known finding: group tag indexes); registration validates before storing and accepts the documented token forms (analysed under the assumption that the token is the anonymous placeholder '*': no panic reachable - a genuine defect here was repaired, fix 4aaba0d); a group ${tag} is located by whole-token equality in the split pattern; the lookup call tree writes no shared state (concurrent lookups cannot mix their tokens) and matches the mux path on a token boundary; a Parallel handler is registered with the empty group whatever its Group option says; the trie matcher returns false only after the literal, placeholder and full-wildcard children were all tried; the match record (node, mount index, params) is written "
          "atomically at the accept sites and the returned Match takes handler, listeners and group from that one node. Equality with a reference matcher over all inputs is not decided.", "DESIGN.md section 4 C06"),
  "C07": ("funnel census + subject-template matching over concatenation trees + validator rune-class facts + struct-tag / literal vocabulary checks",
          "Decides for every handler program that each published subject is an instance of one of the five documented templates with validated variable parts, that the token validator rejects "
          "everything NATS forbids, that every reply envelope and every static payload literal has exactly one of result/resource/error with string code/message, that meta is only reachable "
-         "behind the HTTP and not-replied guards, that marshal output is published only when err==nil and a marshal failure always becomes system.internalError (ToError maps by plain type assertion, no unwrapping), that every reply payload is a package-level literal or json.Marshal output (never string concatenation), and that pre-responses and event payload structs have the documented shape. JSON "
+         "behind the HTTP and not-replied guards, that marshal output is published only when err==nil and a marshal failure always becomes system.internalError (ToError maps by plain type assertion, no unwrapping), that every reply payload is a package-level literal or json.Marshal output (never string concatenation), that pre-responses and event payload structs have the documented shape and the pre-response's milliseconds are the guarded non-negative duration divided by a constant (no overflow-prone arithmetic before the division). The validator's character class is computed by one dataflow run per character value (branches on the argument's characters pruned), not by matching source shapes. JSON "
          "produced by encoding/json for user values is trusted.", "DESIGN.md section 4 C07"),
  "C10": ("sibling agreement between the store handler's get path and change path (default substitution, Transform) + edge placement in the model diff + nil-edge selection of create/delete",
          "Decides the structural part of client coherence: the representation the change handler diffs is built like the one get serves (a missing value becomes the default with and without a "
          "transformer - a genuine defect here was repaired, fix 9e8a6c6 -, stored values go through Transform on both paths), create / delete are selected on the nil edges of those "
-         "representations with the resource id from IDToRID of the after (else before) value, and the model diff marks removed keys with the delete action on the not-present edge and reports "
+         "representations with the resource id from IDToRID of the after (else before) value, and the model diff marks removed keys with the delete action on the not-present edge (a scan not conditioned on the new map's size) and reports "
          "a key only when it is new or not Equal. The remove/add edit script of the collection diff (LCS index arithmetic) is NOT decided: no static argument in reach bounds it.", "DESIGN.md section 4 C10"),
  "C11": ("lock-mode pairing census + sentinel reachability + callback-count typestate with argument value flow + closure-order dominance + receiver-kind cache-coherence rule",
          "Decides per shipped store the structural part of map-equivalence: Read/Write acquire and the txn's own Close releases the same mode on the txn id exactly once; duplicate / not-found "
@@ -72,7 +72,7 @@ CLAIMS = {
          "functions is not decided.", "DESIGN.md section 4 C14"),
  "C17": ("sibling analysis of the pattern scanners: token-start-flag recogniser (loop-head bool phi) + guard dominance on every wildcard comparison + validator rune-class agreement + single-pass replacement rule",
          "Decides that no pattern operation can give '$', '*' or '>' a wildcard meaning in the middle of a token (each wildcard comparison is under a token-start guard; Values' exception is "
-         "accepted only with its whole-token witness; the mux compares token[0]), that no operation looks for a wildcard character with a position-blind strings/bytes search, that a one-token wildcard never covers a full wildcard in Matches, that the three validators accept the same character range, and that tag replacement is one simultaneous pass. "
+         "accepted only with its whole-token witness; the mux compares token[0]), that no operation looks for a wildcard character with a position-blind strings/bytes search, that a one-token wildcard never covers a full wildcard in Matches, that the three validators accept the same character range (computed per character value by dataflow with the character comparisons pruned), that tag replacement is one simultaneous pass, and that the trie matcher gives up only after every alternative was tried (routing accepts what Pattern.Matches accepts for a registered pattern). "
          "Agreement of the operations on every string and round-trips are not enumerated.", "DESIGN.md section 4 C17"),
  "C09": ("who-may-read/write census of the ownership lists + dominance (default before read) + sibling comparison of the two subscription loops + predicate/dispatcher field-set agreement + possibly-empty-value use census",
          "Decides that subscriptions and reset are built from the same lists, defaulted only when nil, that request types x lists and the method wildcard are formed as documented, that every subscription passes "
@@ -81,7 +81,7 @@ CLAIMS = {
  "C18": ("constant / struct-tag / literal vocabulary agreement across three packages (literals parsed inside the analyser) + symbolic linear layout check of hand-assembled buffers + value-flow of the variable segment",
          "Decides the structural part of wire compatibility: reference, soft-reference, delete-action and data-value members agree between service, store and client, and the data member is decoded into json.RawMessage so that null stays distinct from absent, no UnmarshalJSON keeps its input slice, and the value parser assigns an object class only when the other members are known absent; response / get / access result "
          "members agree between service and client; every hand-built JSON buffer is exactly filled for all input lengths and its variable part is json.Marshal output (so escaping is the "
-         "encoder's). decode(encode(x))==x on values is not decided.", "DESIGN.md section 4 C18"),
+         "encoder's); the client's inbox stays subscribed (buffered, never limited or ended early) until SendRequest returns, so a response published after a pre-response reaches the parser. decode(encode(x))==x on values is not decided.", "DESIGN.md section 4 C18"),
  "C19": ("path obligations on SendRequest's CFG: release-after-acquire with deferred call, error-edge reachability, select-arm classification, dominating-condition census for the timer restart, literal agreement with the service",
          "Decides that the inbox subscription is released on every return after a successful subscribe and is touched by nothing else before (no AutoUnsubscribe/Drain ending the interest early), that the inbox channel is buffered, that marshal/subscribe/publish failures return an internal error before the wait loop, "
          "that the timer arm returns ErrTimeout and a non-pre-response is parsed and returned, that a parsed timeout pre-response unconditionally stops the timer, installs one of exactly the "
@@ -92,12 +92,12 @@ CLAIMS = {
          "that every library goroutine ranging over a channel can terminate (query listener: known finding). Timing of late requests versus the drain is not decided.", "DESIGN.md section 4 C15"),
  "C16": ("lockset discipline (lock-state dataflow x field access census) on the shared structures with named exemptions + logger/mock-store lock rules + shared-loop-variable rule",
          "A discipline check, not a race proof: every Service/work field written outside configuration and initialisation is accessed only under the queue mutex or only atomically (two known "
-         "findings: Shutdown clearing nc/inCh), the in-memory logger's buffer is used under its mutex, the mock store's map only inside transaction methods (or their private helpers), the check-then-register of a group's work item is one critical section (the premise of group confinement, shared with C01.A2), stores into request objects target memory allocated by the constructing function (no pointer into the query event or service), lookups share no scratch state, and no closure handed on from a loop "
+         "findings: Shutdown clearing nc/inCh), the in-memory logger's buffer is used under its mutex, the mock store's map only inside transaction methods (or their private helpers), the check-then-register of a group's work item is one critical section (the premise of group confinement, shared with C01.A2), stores into request objects target memory allocated by the constructing function (no pointer into the query event or service), lookups share no scratch state, badgerstore Store / QueryStore fields are written only by constructors and the store's own configuration methods (transactions on different ids run in parallel), and no closure handed on from a loop "
          "shares a re-assigned variable. Per-request objects are confined by contract and not analysed; user code and third-party modules are out of reach.", "DESIGN.md section 4 C16"),
  "C20": ("who-may-call census of transaction writes + guard -> sentinel signature extraction with comparison operators + sibling agreement of the two middleware copies + value-flow of old values",
          "Decides that every middleware apply handler reads and rewrites the resource inside one DB.Update closure, that the inapplicability guards (add len<idx, remove len<=idx, create on "
          "existing/defaulted, change/remove on missing without default) return their sentinel before the write, that the two copies agree guard-for-guard, that 'absent' is decided by the map's "
-         "presence flag and old values are the looked-up values or the delete action, that delete returns what its transaction read, and that the shared default bytes are never a write destination (ValueCopy buffer, element store) and no element is inserted through a truncated prefix of a slice whose tail is read afterwards. Fold-equivalence over event histories and reopen are "
+         "presence flag and old values are the looked-up values or the delete action, that delete returns what its transaction read, and that the shared default bytes are never a write destination (ValueCopy buffer, element store) no element is inserted through a truncated prefix of a slice whose tail is read afterwards, and the raw default (the value events on an unstored resource are folded over) is the marshalled Default option itself, not a callback's view of it. Fold-equivalence over event histories and reopen are "
          "not decided; 'a failing apply publishes nothing' is C08.O3.", "DESIGN.md section 4 C20"),
 }
 
